@@ -30,7 +30,7 @@ Definition documented : facts := {|
   f_pipeline := ["normalize_rename_fields"; "normalize_purge_unknown?self.purge_unknown and (not self.allow_unknown)"; "normalize_purge_readonly?self.purge_readonly"; "validate_readonly_fields"; "normalize_default_fields"; "normalize_coerce"; "normalize_containers"; "set_is_normalized"];
   f_worklist := ["queue:empty_fields_with_default_setter_in_order"; "pop_front"; "call"; "except KeyError:requeue_back"; "except Exception:file_own_field"; "state:tuple"; "seen:file_all_pending_and_stop"; "unseen:remember"];
   f_resets := ["_errors=errors.ErrorList()"; "recent_error=None"; "document_error_tree=errors.DocumentErrorTree()"; "schema_error_tree=errors.SchemaErrorTree()"; "document=copy(document)"; "if not self.is_child: self._is_normalized = False"; "if schema is not None: self.schema = DefinitionSchema(self, schema) else: if self.schema is None:
-    if isinstance(self.allow_unknown, Mapping):
+    if isinstance(self.allow_unknown, (Mapping, _str_type)):
         self._schema = {}
     else:
         raise SchemaError(errors.SCHEMA_ERROR_MISSING)"; "if document is None: raise DocumentError(errors.DOCUMENT_MISSING)"; "if not isinstance(document, Mapping): raise DocumentError(errors.DOCUMENT_FORMAT.format(document))"; "self.error_handler.start(self)"];
